@@ -174,7 +174,8 @@ def _run_job(job):
                 out["crashes"] += 1
                 kind, frames = sanitizer_signature(rc.stderr_tail)
                 v = Violation("runner %s (%s)" % (rc.why, kind or "rc=%r" % rc.rc), crash=True, kind=kind,
-                              frames=frames, why=rc.why, stderr=rc.stderr_tail[-2500:])
+                              frames=frames, why=rc.why, stderr=rc.stderr_tail[-2500:],
+                              ub=[kind] if kind and kind.startswith("UBSan|") else None)
                 if rc.why == "timeout":
                     # a time-out is load noise / inconclusive, never a violation by itself
                     env.label("inconclusive:timeout")
@@ -240,7 +241,8 @@ def replay_case(mod, target_name, cfg, case, times=3):
                     outs.append(None)
                 else:
                     outs.append(Violation("runner %s (%s)" % (rc.why, kind or "rc=%r" % rc.rc), crash=True, kind=kind,
-                                          frames=frames, why=rc.why, stderr=rc.stderr_tail[-2500:]))
+                                          frames=frames, why=rc.why, stderr=rc.stderr_tail[-2500:],
+                                          ub=[kind] if kind and kind.startswith("UBSan|") else None))
             except Violation as v:
                 outs.append(v)
         finally:
